@@ -5,7 +5,7 @@ import numpy as np
 from hypothesis import strategies as st
 
 from .. import gen
-from ..core import Facet, Violation
+from ..core import Enumeration, Facet, Violation
 from ..ref import stats as R
 from ..ref import watershed as W
 
@@ -275,10 +275,69 @@ def check_accessor(case, ctx):
     ctx.show(dict(method=method, dims=case["dims"], grid=[len(f), len(dirs)], detected=det[:4], requested=req, smooth=case["smooth"]))
 
 
+ENUM_SHAPES = [(3, 4), (4, 3), (2, 6), (6, 2)]
+ENUM_BLOCK = 3**12 // 27  # 19 683 maps per block
+
+
+def enum_items(shard, nshards, tier):
+    """Blocks of consecutive base-3 numerals: every map over the strictly positive levels {1,2,3} on a few 12-bin shapes."""
+    k = 0
+    for shape in ENUM_SHAPES if tier == "thorough" else ENUM_SHAPES[:2]:
+        for ih in (3, 100):
+            for b in range(27):
+                k += 1
+                if k % nshards != shard:
+                    continue
+                yield dict(shape=list(shape), ihmax=ih, block=b)
+
+
+def check_enum(case, ctx):
+    """Exhaustive: every bin of every spectrum is held by a partition (label >= 1) - with a positive floor everywhere an
+    unassigned bin is lost energy, whatever the number of partitions requested - and one map in 512 goes through np_ptm3 with
+    all the predicates of the statement."""
+    from wavespectra.partition import partition as P, specpart
+
+    nf, nd = case["shape"]
+    n = nf * nd
+    f = np.array([0.05 * 1.2**i for i in range(nf)])
+    dirs = np.array([i * 360.0 / nd for i in range(nd)])
+    pw = 3 ** np.arange(n)
+    start = case["block"] * ENUM_BLOCK
+    many = 0
+    for c in range(start, start + ENUM_BLOCK):
+        E = ((c // pw) % 3 + 1).astype(np.float32).reshape(nf, nd)
+        lab = np.asarray(specpart.partition(E, case["ihmax"]))
+        if lab.min() < 1:
+            raise Violation("unassigned-bin", "watershed map %s of the spectrum %s (ihmax=%d) leaves bin %s in no partition: its energy is in none of the partitions" % (
+                lab.tolist(), E.astype(int).tolist(), case["ihmax"], np.argwhere(lab < 1)[0].tolist()))
+        many += lab.max() >= 2
+        if c % 512 == 0:
+            det = int(lab.max())
+            E64 = E.astype(np.float64)
+            out = np.asarray(P.np_ptm3(E64, E64, f, dirs, parts=det, ihmax=case["ihmax"]))
+            tot, src, _ = predicates(out, E64, f, dirs, None, det, det, 0)
+            if not np.array_equal(tot, src):
+                raise Violation("conservation", "np_ptm3(parts=%d = detected) of %s does not add up to the input" % (det, E.astype(int).tolist()))
+        ctx.evals += 1
+    ctx.evals -= 1
+    ctx.nt(many > 0)
+    ctx.extra_nt = max(0, int(many) - 1)
+    ctx.show(dict(shape=case["shape"], ihmax=case["ihmax"], block=case["block"], maps=ENUM_BLOCK, with_two_or_more_partitions=int(many)))
+
+
 def facets():
+    e = Enumeration("positive_maps_exhaustive", enum_items, check_enum, bounds="every map over {1,2,3} on 3x4 and 4x3 (quick) plus 2x6 and 6x2 (thorough), ihmax 3 and 100: no bin left unassigned")
+    e.shards = {"quick": 16, "thorough": 16}
     return [
+        e,
         Facet("np", part_case(), check_np, quick=8000, thorough=120000, qshards=8),
         Facet("accessor", part_case(accessor=True), check_accessor, quick=1200, thorough=30000, qshards=6),
         Facet("accessor_threaded", part_case(accessor=True, threaded=True), check_accessor, quick=32, thorough=400, qshards=4,
               doc="64-160 distinct spectra of more than 480 bins, one dask chunk each, threaded scheduler"),
     ]
+
+
+def extra_evidence(merged, tier):
+    ok = merged.get("positive_maps_exhaustive", {}).get("exhaustive")
+    shapes = "3x4, 4x3" if tier == "quick" else "3x4, 4x3, 2x6, 6x2"
+    return dict(exhaustive_subspaces=["every map over the positive levels {1,2,3} on %s with ihmax 3 and 100: every bin assigned to a partition" % shapes] if ok else [])
